@@ -338,6 +338,9 @@ class Reader:
             if e['id'] in st.alias:
                 return ('field', st.alias[e['id']])
             return ('local', e['id'])
+        # Eigen view wrappers are the object itself: x.array() += v, x.noalias() = v
+        if k == 'MCall' and e.get('m') in ('array', 'matrix', 'noalias') and not e.get('args') and not e.get('inrepo'):
+            return self.lvalue(e['obj'], st, ctx)
         # element accessors of library containers are pseudo path components: q.front(), m.begin()->second ...
         if k == 'MCall' and e.get('m') in ACCESSOR_COMPONENTS and not e.get('args') and not e.get('inrepo'):
             b = self.lvalue(e['obj'], st, ctx)
